@@ -37,6 +37,7 @@
 -/
 import BacVerif.Model.Route
 import BacVerif.Lemmas.RouteGlobal
+import BacVerif.Lemmas.RouteUnicast
 set_option linter.unusedSimpArgs false
 namespace BacVerif.C06
 open BacVerif BacVerif.Route
@@ -556,5 +557,126 @@ example : (gbDeliveries demoTree ⟨[1], true, true, []⟩ false 0 [0x10, 8]).ma
     [(1, [2]), (2, [5]), (4, [6]), (4, [7]), (3, [8])] := by
   rw [tree_global_broadcast_once demoTree _ false 0 _ (by decide) (by decide) (by decide) (by decide)]
   decide
+
+/-! ## remote traffic on trees with caches consistent with the tree
+
+  `T.warm d` (Lemmas/RouteUnicast.lean) says, for every router on the path from the root to
+  network `d`: either `d` is directly connected, or the cache search the code performs over the
+  router's other adapters finds the port towards `d` and there the next router of the path.
+  The originator's own cache names the first router (`hoc`).  Routers list the adapter facing
+  the root first (the harness exercises every order; the per-hop theorems do not depend on it). -/
+
+/-- **tree_remote_broadcast_once** — a remote broadcast for network `d` (anywhere else in the
+    tree), caches on the path consistent with the tree: delivered to every station of `d`,
+    each exactly once, and to nobody else; shown source = originator's network and MAC, shown
+    destination = local broadcast -/
+theorem tree_remote_broadcast_once (T : NetTree) (o : Station) (d : Nat) (m1 : Mac) (er : Bool) (prio : Nat)
+    (data : Bytes)
+    (ho : o ∈ T.stations) (hnd : T.lans.Nodup) (hwf : T.wf [] = true) (hh : T.height ≤ 255)
+    (hd : d ∈ T.routers.lans) (hm1 : T.routers.nextHop d = some m1)
+    (hoc : o.cache.get (o.adapter T.lan).net d = some m1) (hwarm : T.warm d = true) :
+    routedDeliveries T o (.rb d) er prio data =
+      (T.stationsOn d).map
+        (fun s => ⟨d, s.mac, ⟨.remoteStation T.lan o.mac, some .localBroadcast, er, prio, data⟩⟩) := by
+  have := tree_routed T o (.rb d) m1 er prio data ho hnd hwf hh (by simp) hd hm1 hoc hwarm
+    (by intro m hm; simp at hm)
+  rw [this]
+  have hf : (T.stationsOn d).filter (lkSel .bcast) = T.stationsOn d :=
+    List.filter_eq_self.mpr (fun _ _ => rfl)
+  simp [rtExpect, lastLeg, rtUp, Link.toAddr, Dadr.net, hf]
+
+/-- **tree_unicast_once** — a unicast to station `t` of network `d` (anywhere else in the tree),
+    caches on the path consistent with the tree: exactly one delivery, to `t`; shown source =
+    originator's network and MAC; shown destination = `t`'s own address -/
+theorem tree_unicast_once (T : NetTree) (o t : Station) (d : Nat) (m1 : Mac) (er : Bool) (prio : Nat)
+    (data : Bytes)
+    (ho : o ∈ T.stations) (hnd : T.lans.Nodup) (hwf : T.wf [] = true) (hh : T.height ≤ 255)
+    (hd : d ∈ T.routers.lans) (ht : t ∈ T.stationsOn d) (hm1 : T.routers.nextHop d = some m1)
+    (hoc : o.cache.get (o.adapter T.lan).net d = some m1) (hwarm : T.warm d = true) :
+    routedDeliveries T o (.rs d t.mac) er prio data =
+      [⟨d, t.mac, ⟨.remoteStation T.lan o.mac, some (.localStation t.mac), er, prio, data⟩⟩] := by
+  have := tree_routed T o (.rs d t.mac) m1 er prio data ho hnd hwf hh (by simp) hd hm1 hoc hwarm
+    (by intro m hm
+        simp only [Dadr.net, Dadr.rs.injEq, true_and] at hm
+        exact ⟨t, ht, hm⟩)
+  rw [this]
+  simp only [rtExpect, lastLeg, Dadr.net]
+  have hsel : lkSel (.to t.mac) = fun s => s.mac == t.mac := by
+    funext s; rfl
+  rw [hsel, filter_mac_single _ t (NetTree.stationsOn_nodup T [] hwf d) ht]
+  simp [rtUp, Link.toAddr]
+
+/-- **reply_routable** — the source shown to the recipient, used as the destination of a reply,
+    brings the reply to the originator and to nobody else.  `T` is the internetwork read from
+    the originator's network, `T'` the same internetwork read from the recipient's network
+    (two applications of `tree_unicast_once`). -/
+theorem reply_routable (T T' : NetTree) (o t : Station) (m1 m1' : Mac)
+    (er : Bool) (prio : Nat) (data : Bytes) (er' : Bool) (prio' : Nat) (data' : Bytes)
+    (ho : o ∈ T.stations) (hnd : T.lans.Nodup) (hwf : T.wf [] = true) (hh : T.height ≤ 255)
+    (hd : T'.lan ∈ T.routers.lans) (ht : t ∈ T.stationsOn T'.lan)
+    (hm1 : T.routers.nextHop T'.lan = some m1)
+    (hoc : o.cache.get (o.adapter T.lan).net T'.lan = some m1) (hwarm : T.warm T'.lan = true)
+    (ht' : t ∈ T'.stations) (hnd' : T'.lans.Nodup) (hwf' : T'.wf [] = true) (hh' : T'.height ≤ 255)
+    (hd' : T.lan ∈ T'.routers.lans) (ho' : o ∈ T'.stationsOn T.lan)
+    (hm1' : T'.routers.nextHop T.lan = some m1')
+    (htc : t.cache.get (t.adapter T'.lan).net T.lan = some m1') (hwarm' : T'.warm T.lan = true) :
+    ∃ shown : Addr,
+      routedDeliveries T o (.rs T'.lan t.mac) er prio data =
+        [⟨T'.lan, t.mac, ⟨shown, some (.localStation t.mac), er, prio, data⟩⟩] ∧
+      ∀ dd : Dadr, dd.toAddr = shown →
+        routedDeliveries T' t dd er' prio' data' =
+          [⟨T.lan, o.mac, ⟨.remoteStation T'.lan t.mac, some (.localStation o.mac), er', prio', data'⟩⟩] := by
+  refine ⟨.remoteStation T.lan o.mac,
+    tree_unicast_once T o t T'.lan m1 er prio data ho hnd hwf hh hd ht hm1 hoc hwarm, ?_⟩
+  intro dd hdd
+  cases dd with
+  | gb => simp [Dadr.toAddr] at hdd
+  | rb n => simp [Dadr.toAddr] at hdd
+  | rs n m =>
+    simp only [Dadr.toAddr, Addr.remoteStation.injEq] at hdd
+    obtain ⟨rfl, rfl⟩ := hdd
+    exact tree_unicast_once T' t o T.lan m1' er' prio' data' ht' hnd' hwf' hh' hd' ho' hm1' htc hwarm'
+
+/-! ### non-vacuity: the demo internetwork with caches consistent with the tree, read from
+    network 1 (originator 01) and from network 4 (recipient 06) -/
+
+/-- `demoTree` with warm caches on the path 1 → 2 → 4 -/
+def demoWarm : NetTree :=
+  .mk 1 [⟨[1], true, true, [((some 1, 4), [0x0a])]⟩, ⟨[2], false, false, []⟩]
+    (.cons 0 [0x0a] 1 [((some 2, 4), [0x0d])]
+      (.cons 1 [0x0b]
+          (.mk 2 [⟨[5], true, true, []⟩]
+            (.cons 0 [0x0d] 0 [] (.cons 1 [0x0e] (.mk 4 [⟨[6], true, true, [((some 4, 1), [0x0e])]⟩, ⟨[7], false, true, []⟩] .nil) .nil) .nil))
+        (.cons 2 [0x0c] (.mk 3 [⟨[8], false, true, []⟩] .nil) .nil))
+      .nil)
+
+/-- the same internetwork read from network 4 -/
+def demoWarm' : NetTree :=
+  .mk 4 [⟨[6], true, true, [((some 4, 1), [0x0e])]⟩, ⟨[7], false, true, []⟩]
+    (.cons 1 [0x0e] 0 [((some 2, 1), [0x0b])]
+      (.cons 0 [0x0d]
+          (.mk 2 [⟨[5], true, true, []⟩]
+            (.cons 1 [0x0b] 1 [((some 2, 4), [0x0d])]
+              (.cons 0 [0x0a] (.mk 1 [⟨[1], true, true, [((some 1, 4), [0x0a])]⟩, ⟨[2], false, false, []⟩] .nil)
+                (.cons 2 [0x0c] (.mk 3 [⟨[8], false, true, []⟩] .nil) .nil))
+              .nil))
+        .nil)
+      .nil)
+
+def demoO : Station := ⟨[1], true, true, [((some 1, 4), [0x0a])]⟩
+def demoT : Station := ⟨[6], true, true, [((some 4, 1), [0x0e])]⟩
+
+example : demoO ∈ demoWarm.stations ∧ demoWarm.lans.Nodup ∧ demoWarm.wf [] = true ∧ demoWarm.height ≤ 255 ∧
+    demoWarm'.lan ∈ demoWarm.routers.lans ∧ demoT ∈ demoWarm.stationsOn demoWarm'.lan ∧
+    demoWarm.routers.nextHop demoWarm'.lan = some [0x0a] ∧
+    demoO.cache.get (demoO.adapter demoWarm.lan).net demoWarm'.lan = some [0x0a] ∧
+    demoWarm.warm demoWarm'.lan = true := by decide
+
+example : demoT ∈ demoWarm'.stations ∧ demoWarm'.lans.Nodup ∧ demoWarm'.wf [] = true ∧ demoWarm'.height ≤ 255 ∧
+    demoWarm.lan ∈ demoWarm'.routers.lans ∧ demoO ∈ demoWarm'.stationsOn demoWarm.lan ∧
+    demoWarm'.routers.nextHop demoWarm.lan = some [0x0e] ∧
+    demoT.cache.get (demoT.adapter demoWarm'.lan).net demoWarm.lan = some [0x0e] ∧
+    demoWarm'.warm demoWarm.lan = true := by decide
+
 
 end BacVerif.C06
